@@ -222,8 +222,14 @@ class Classifier:
                 return ("OVERLAP", "NOTHING", "exact surface collision")
             if cn in ("numpy.all", "np.all") and v.args:
                 a = v.args[0]
-                if isinstance(a, ast.Compare) and len(a.ops) == 1 and isinstance(a.ops[0], ast.Gt) and lib.const(a.comparators[0]) == 0:
-                    src = a.left
+                strict_pos = None  # `X > 0` or `0 < X`
+                if isinstance(a, ast.Compare) and len(a.ops) == 1:
+                    if isinstance(a.ops[0], ast.Gt) and lib.const(a.comparators[0]) == 0:
+                        strict_pos = a.left
+                    elif isinstance(a.ops[0], ast.Lt) and lib.const(a.left) == 0:
+                        strict_pos = a.comparators[0]
+                if strict_pos is not None:
+                    src = strict_pos
                     if isinstance(src, ast.Name) and self._one(self.env, src.id) is not None:
                         src = self._one(self.env, src.id)
                     st = unparse(src)
@@ -250,10 +256,13 @@ class Classifier:
             return False
         oks = 0
         for c in e.values:
-            if isinstance(c, ast.Compare) and len(c.ops) == 1 and isinstance(c.ops[0], (ast.LtE, ast.Lt)):
-                l, r = unparse(c.left), unparse(c.comparators[0])
+            if isinstance(c, ast.Compare) and len(c.ops) == 1 and isinstance(c.ops[0], (ast.LtE, ast.Lt, ast.GtE, ast.Gt)):
+                lo, hi = c.left, c.comparators[0]
+                if isinstance(c.ops[0], (ast.GtE, ast.Gt)):
+                    lo, hi = hi, lo
+                l, r = unparse(lo), unparse(hi)
                 # lower bound of one <= upper bound of the other
-                if "[0" in l and "[1" in r and owners_of(c.left, self.roles) != owners_of(c.comparators[0], self.roles):
+                if "[0" in l and "[1" in r and owners_of(lo, self.roles) != owners_of(hi, self.roles):
                     oks += 1
         return oks == 2
 
